@@ -10,6 +10,7 @@ import (
 
 	"pgregory.net/rapid"
 
+	"verif/clientsim"
 	"verif/evid"
 	"verif/memnet"
 	"verif/pairsim"
@@ -123,9 +124,37 @@ func TestCheck(t *testing.T) {
 		}
 		return f
 	})
+	scripted := evid.RapidEngine("scripted", evid.RapidOpts{Quick: 3000, Thorough: 100000, Crashy: true}, clientsim.Gen, func(sc clientsim.Scenario) *evid.Failure {
+		tr := clientsim.Run(t, sc)
+		var f *evid.Failure
+		switch {
+		case tr.Panic != "":
+			f = evid.Failf("pool/panic", sc, "panic in scenario: %s", tr.Panic)
+		case tr.Deadlock:
+			f = evid.Failf("pool/deadlock", sc, "all goroutines blocked while the scenario was still running")
+		case len(tr.PoolViolation) > 0:
+			key := "pool/write-after-release"
+			if len(tr.PoolViolation[0]) > 14 && tr.PoolViolation[0][:14] == "double release" {
+				key = "pool/double-release"
+			}
+			f = evid.Failf(key, sc, "%s (%d life-cycle violations in this scenario)", tr.PoolViolation[0], len(tr.PoolViolation))
+		case tr.HeldChanged != "":
+			f = evid.Failf("pool/response-changed-while-held", sc, "%s", tr.HeldChanged)
+		}
+		if f == nil {
+			key := ""
+			if tr.Recycles > 0 && len(sc.Ops) >= 2 {
+				b, _ := json.Marshal(sc)
+				key = string(b)
+			}
+			r.Case("scripted", key, func() any { return sc })
+			r.Class("scripted/recycles", tr.Recycles)
+		}
+		return f
+	})
 	r.Main(evid.Meta{
-		Rule:        fmt.Sprint("the mixed scenarios of C04/C13 (plain and block-wise requests in both directions, one-way writes, observe + notifications + cancel, ping; endings by answer, silence, slow handler, caller cancellation, separate response; fault tapes with drop/duplicate/re-order/replay on the datagram link, segmentation on the stream; partly concurrent) run between two library endpoints whose pools hold only 2-8 objects and are instrumented through the verif life-cycle hook: per-object state machine (a second release without re-acquisition is a violation), poison of every retained buffer on release, poison verified on the next acquisition and in an end-of-run sweep (a library write after release), fingerprint for objects the full pool did not keep; application side: every response returned from a call is snapshotted and held across the following operation(s), every request is snapshotted at handler entry and compared at exit after the handler slept while other traffic churned the pool. Non-trivial = at least one object was recycled during a scenario with >= 2 operations; distinct by scenario"),
+		Rule:        fmt.Sprint("the mixed scenarios of C04/C13 (plain and block-wise requests in both directions, one-way writes, observe + notifications + cancel, ping; endings by answer, silence, slow handler, caller cancellation, separate response; fault tapes with drop/duplicate/re-order/replay on the datagram link, segmentation on the stream; partly concurrent) run between two library endpoints whose pools hold only 2-8 objects and are instrumented through the verif life-cycle hook: per-object state machine (a second release without re-acquisition is a violation), poison of every retained buffer on release, poison verified on the next acquisition and in an end-of-run sweep (a library write after release), fingerprint for objects the full pool did not keep; application side: every response returned from a call is snapshotted and held across the following operation(s), every request is snapshotted at handler entry and compared at exit after the handler slept while other traffic churned the pool. scripted: the same monitor on one client connection against the scripted wire-level peer (endings: answer, silence, bare ACK, reset, duplicated and stray replies, undecodable block option, first block then silence, block-wise download; cancellation; token re-use), which reaches the error paths that release early. Non-trivial = at least one object was recycled during a scenario with >= 2 operations; distinct by scenario"),
 		Assumptions: []string{"library reads after release are only visible if they lead to a write, a crash or changed application-visible content", "goroutine interleavings are the runtime's"},
 		Floor:       300,
-	}, eng)
+	}, eng, scripted)
 }
